@@ -17,7 +17,7 @@ Fixpoint prefixb (p s : string) : bool :=
 
 (* export, --track, -i, -j, factor field, offset field, rooms option, possible-rooms field name, the import document *)
 Definition cde_doc_case := (json * option Z * bool * bool * option string * option string *
-                            (option (list nat) * option (list (string * nat * nat))) * option string * json)%type.
+                            (option (list nat) * option (list (string * nat * nat))) * option string * json * option (Z * Z))%type.
 
 Definition track_name_of (j : json) (tr : option Z) : option string :=
   match tr with
@@ -36,9 +36,13 @@ Definition track_name_of (j : json) (tr : option Z) : option string :=
    1 the model reads the export | 2 the import side reads the document (strict: exactly the seven keys, one track per registration / course,
    the output schema version, kind partial) | 4 the document IS WriteDoc.write_doc of the lists it encodes (= Cde.write_regs / write_courses of the
    encoded assignment, the model's possible-rooms strings) with the event id of the export | 8 the summary starts with the fixed text for the
-   options (track name, numbers of ignored courses / registrations) *)
+   options (track name, numbers of ignored courses / registrations) | 32 C08 at CLI level: the two figures printed in the tail of the summary
+   (binary32 bit patterns of "solution quality" and "overall assignment quality") are the model's: the mean penalty of the written
+   assignment (quality_num / n_real) and the combined figure QualityComb.comb_num / comb_den with the external data of the READER MODEL
+   (ra_qual: number of rated ignored instructors, penalties of the rated ignored attendees); without --ignore-assigned the second figure is
+   the first one *)
 Definition check_cde_doc (c : cde_doc_case) : N :=
-  let '(j, tr, ic, ia, ff, of, rm, fname, doc) := c in
+  let '(j, tr, ic, ia, ff, of, rm, fname, doc, figs) := c in
   match read_fields j tr ic ia ff of with
   | ROk (ps, cs, amb) =>
     match import_of_doc (ra_track amb) doc with
@@ -54,7 +58,16 @@ Definition check_cde_doc (c : cde_doc_case) : N :=
       let same := json_eqb doc model in
       let sm := prefixb (summary_prefix (track_name_of j tr) (if ic then Some (ra_ign_courses amb) else None) (if ia then Some (ra_ign_regs amb) else None))
                         (im_summary im) in
-      (1 + 2 + (if same then 4 else 0) + (if sm then 8 else 0) + (if CdeIds.keys_canonical j then 16 else 0))%N
+      let parts := map to_part ps in
+      let sc := score_of courses parts a in let nr := Z.of_nat (n_real parts) in
+      let qm := quality_bits (quality_num parts sc) nr in
+      let om := match ra_qual amb with
+                | Some (ni, pens) => quality_bits (comb_num nr sc (Z.of_nat ni) (map Z.of_nat pens)) (comb_den nr (Z.of_nat ni) (map Z.of_nat pens))
+                | None => qm end in
+      let figs_ok := match figs with
+                     | Some (qb, ob) => (nr =? 0)%Z || ((qb =? qm)%Z && (ob =? om)%Z)
+                     | None => true end in
+      (1 + 2 + (if same then 4 else 0) + (if sm then 8 else 0) + (if CdeIds.keys_canonical j then 16 else 0) + (if figs_ok then 32 else 0))%N
     | None => (1 + (if CdeIds.keys_canonical j then 16 else 0))%N
     end
   | RErr _ => 0%N
